@@ -3,23 +3,23 @@ import steplib as S
 import vlib
 
 LEVEL = "model_checking"
+# C03 quantifies over inputs only (C01/C02 name the ambient precision, C03 does not): the calls are made at the two precisions a caller finds
+# without doing anything - mpmath's default and the 30 digits any earlier ebb_calc call leaves behind
+DPS = [15, 30]
 
 
 def call_lm(ec, mp, dps, steps, r, a, c):
     mp.mp.dps = dps
-    return ec.calculate_lm(steps, r, a, S.acc_arg(c))
+    return S.call(ec.calculate_lm, steps, r, a, S.acc_arg(c))
 
 
 def lt_feedback(ec, mp, dps, steps, r, a, c, out):
     """the statement's 'feeding the reported duration to the timed-move predictor'"""
-    if not (isinstance(out, tuple) and len(out) == 3 and S.is_int(*out)) or out[0] < 1:
+    if not S.ints(out, 3) or out[0] < 1:
         return None
     rr, aa = (-r, -a) if steps < 0 else (r, a)
     mp.mp.dps = dps
-    try:
-        return ec.move_dist_lt(rr, aa, out[0], S.acc_arg(c))
-    except Exception:  # pylint: disable=broad-except
-        return None
+    return S.call(ec.move_dist_lt, rr, aa, out[0], S.acc_arg(c))       # a Raised here is a failed feedback, not a skipped one
 
 
 def g_lm(ctx, ec, em, mp, cfg):
@@ -33,7 +33,7 @@ def g_lm(ctx, ec, em, mp, cfg):
         n += 1
         if len(seen) < 30000 and n % 2 == 0:
             seen.append((steps, r, a, acc_in, want))
-        dps = S.DPS_CHOICES[(r + a + T) % len(S.DPS_CHOICES)]
+        dps = DPS[(r + a + T) % len(DPS)]
         forms = [(steps, r, a, "calculate_lm")]
         if r <= 0:
             forms.append((-steps, -r, -a, "calculate_lm(legacy negative steps)"))
@@ -41,17 +41,26 @@ def g_lm(ctx, ec, em, mp, cfg):
             got = call_lm(ec, mp, dps, s_in, r_in, a_in, acc_in)
             ctx.count(("G", s_in, r_in, a_in, acc_in))
             case = {"mode": "G", "fn": fn, "steps": s_in, "rate": r_in, "accel": a_in, "accum": acc_in, "dps": dps}
-            if got != want or not S.is_int(*got):
-                cl = "lm.duration_is_first_tick" if (not isinstance(got, tuple) or got[0] != T) else \
+            if got != want:
+                cl = "lm.raises" if isinstance(got, S.Raised) else "lm.duration_is_first_tick" if (not isinstance(got, tuple) or got[0] != T) else \
                     ("lm.position" if got[1] != want[1] else "lm.accumulator")
                 ctx.violation(cl, case, list(want), repr(got), input_class=input_class(s_in, r_in, a_in, acc_in))
             else:
                 fb = lt_feedback(ec, mp, dps, s_in, r_in, a_in, acc_in, got)
                 if fb != (want[1], want[2]):
                     ctx.violation("lm.feeds_timed_move", case, [want[1], want[2]], repr(fb))
+        if steps == 1:
+            # requests that cannot move report (0, 0, 0): zero budget, and the legacy negative budget with a negative rate
+            for (s0, r0_, a0_) in ((0, r, a), (-3, -abs(r) - 1, a)) + (((5, 0, 0), (-5, 0, 0)) if n % 50 == 1 else ()):
+                if abs(r0_) > S.MM1:
+                    continue
+                gz = call_lm(ec, mp, dps, s0, r0_, a0_, acc_in)
+                if gz != (0, 0, 0):
+                    ctx.violation("lm.raises" if isinstance(gz, S.Raised) else "lm.cannot_move_reports_zero",
+                                  {"mode": "G", "fn": "calculate_lm", "steps": s0, "rate": r0_, "accel": a0_, "accum": acc_in, "dps": dps}, [0, 0, 0], repr(gz))
         if acc_in == S.CLEAR:
             mp.mp.dps = dps
-            gt = em.moveTimeLM(r, steps, a)
+            gt = S.call(em.moveTimeLM, r, steps, a)
             if gt != T:
                 ctx.violation("lm.alias_moveTimeLM", {"mode": "G", "fn": "moveTimeLM", "steps": steps, "rate": r, "accel": a, "accum": acc_in, "dps": dps},
                               T, repr(gt), input_class=input_class(steps, r, a, acc_in))
@@ -60,13 +69,15 @@ def g_lm(ctx, ec, em, mp, cfg):
         if n % 5003 == 1:
             ctx.sample({"mode": "G", "steps": steps, "rate": r, "accel": a, "accum": "clear" if acc_in == S.CLEAR else acc_in,
                         "stepped_first_tick": {"T": T, "pos": want[1], "acc": want[2]}, "calculate_lm": repr(got)})
+    prev = None
     for (steps, r, a, acc_in, want) in reversed(seen):             # opposite order: no answer may depend on earlier calls
         got = call_lm(ec, mp, 15, steps, r, a, acc_in)
         if got != want:
             ctx.violation("lm.duration_is_first_tick", {"mode": "G", "fn": "calculate_lm", "steps": steps, "rate": r, "accel": a, "accum": acc_in, "dps": 15,
-                                                        "order": "second pass, reverse order"}, list(want), repr(got))
+                                                        "order": "second pass, reverse order", "prelude": prev}, list(want), repr(got))
             if ctx.enough(30):
                 break
+        prev = [steps, r, a, acc_in]
     vs = S.judge(ctx, "g_cross", events)
     off = [(e, v) for e, v in zip(events, vs) if v != "ok"]
     if off:
@@ -85,8 +96,13 @@ def draw_lm(rng):
     for _ in range(200):
         k = rng.random()
         if k < 0.04:
-            return rng.choice([(0, S.rand_signed(rng), S.rand_signed(rng)), (rng.randint(1, 9), 0, 0),
+            return rng.choice([(0, S.rand_signed(rng), S.rand_signed(rng)), (rng.randint(1, 9), 0, 0), (-rng.randint(1, 9), 0, 0),
                                (-rng.randint(1, 99), -max(1, S.rand_mag(rng)), S.rand_signed(rng))]) + (S.rand_acc(rng),)
+        if k < 0.16:
+            d = draw_coincidence(rng)
+            if d:
+                return d
+            continue
         r = S.rand_signed(rng)
         kind = rng.random()
         if kind < 0.25:
@@ -105,6 +121,10 @@ def draw_lm(rng):
             a = S.rand_signed(rng, max(1, S.MM1 >> rng.choice([0, 4, 8, 12, 16, 20, 24, 28])))
         if rng.random() < 0.08:
             r = S.tdiv(a, 2) - a + rng.choice([-1, 0, 1])
+        if rng.random() < 0.05 and abs(a) >= 2:
+            # start rate at the edge of the range with an opposing acceleration: the adjusted start rate r - trunc(a/2) itself does not fit
+            # 32 bits, every per-tick rate does
+            r = (S.MM1 - rng.choice([0, 0, 1, 2, rng.randint(0, abs(a) // 2)])) * (-1 if a > 0 else 1)
         if abs(r) > S.MM1 or (r == 0 and a == 0):
             continue
         c = S.rand_acc(rng)
@@ -120,6 +140,41 @@ def draw_lm(rng):
     return (1, 1000, 0, 0, None, True)
 
 
+def draw_coincidence(rng):
+    """an accelerated move constructed to land EXACTLY on a step boundary at a chosen tick, or to end exactly as its rate reaches zero:
+    pick (rate, accel, T), then the start accumulator that makes total(T) a multiple of 2^31 (the branch-deciding coincidences of the statement)"""
+    T = max(2, rng.getrandbits(rng.choice([2, 3, 4, 6, 8, 10, 12, 14, 16, 18])))
+    mode = rng.random()
+    if mode < 0.35:
+        # ends as the rate reaches zero: rate_T = r0 + a*T = 0 (or one tick either side)
+        a = S.rand_signed(rng, max(1, S.MM1 // T)) or 1
+        r = -a * (T + rng.choice([-1, 0, 0, 0, 1])) + S.tdiv(a, 2)
+    elif mode < 0.7:
+        # reversal in the middle, budget completed after it
+        a = S.rand_signed(rng, max(1, S.MM1 // T)) or 1
+        r = -a * rng.randint(1, T) + S.tdiv(a, 2) + rng.choice([-1, 0, 1])
+    else:
+        r = S.rand_signed(rng)
+        a = S.rand_signed(rng, max(1, (S.MM1 - abs(r)) // T))
+    if abs(r) > S.MM1 or abs(a) > S.MM1 or (r == 0 and a == 0) or not S.in_domain(r, a, 0, T):
+        return None
+    tot = S.total_at(r, a, 0, 0, T)
+    c = (-tot) % S.M                      # total(T) with this start accumulator is a multiple of 2^31: a boundary landing at tick T
+    if rng.random() < 0.25:
+        c = (c + rng.choice([-1, 1])) % S.M          # ... or one unit either side of it
+    steps = S.cnt_at(r, a, c, T)
+    if rng.random() < 0.3:
+        steps += rng.choice([-1, 1])
+    if steps < 1:
+        return None
+    tw = S.lm_witness(steps, r, a, c)
+    if tw is None:
+        return None
+    if r <= 0 and rng.random() < 0.3:
+        return (-steps, -r, -a, c, tw, True)          # the legacy form mirrors the move
+    return (steps, r, a, c, tw, True)
+
+
 def v_lm(ctx, ec, em, mp, n):
     rng = S.rng_for(ctx, 303)
     events = []
@@ -130,10 +185,16 @@ def v_lm(ctx, ec, em, mp, n):
             tw = None
         else:
             steps, r, a, c, tw, _ = d
-        dps = rng.choice(S.DPS_CHOICES)
+        dps = rng.choice(DPS)
         out = call_lm(ec, mp, dps, steps, r, a, c)
         fb = lt_feedback(ec, mp, dps, steps, r, a, c, out)
         events.append(S.ev_lm(steps, r, a, c, out, fb, tw, dps))
+        if c == S.CLEAR:
+            # the deprecated wrapper reports the same duration (it always clears); judged as the full answer with calculate_lm's position/accumulator
+            mp.mp.dps = dps
+            gt = S.call(em.moveTimeLM, r, steps, a)
+            if S.ints(out, 3):
+                events.append(S.ev_lm(steps, r, a, c, (gt, out[1], out[2]) if S.ints(gt) else gt, None, tw, dps, via="moveTimeLM"))
     vs = S.judge(ctx, "v", events, chunk=1500)
     rej = 0
     for e, v in zip(events, vs):
@@ -143,7 +204,9 @@ def v_lm(ctx, ec, em, mp, n):
         ctx.count(("V", e["steps"], e["r"], e["a"], e["c"]))
         if v != "ok":
             rej += 1
-            ctx.violation(v, {"mode": "V", "fn": "calculate_lm", "steps": e["steps"], "rate": e["r"], "accel": e["a"], "accum": e["c"], "dps": e["dps"],
+            if e["via"] == "moveTimeLM":
+                v = "lm.alias_moveTimeLM"
+            ctx.violation(v, {"mode": "V", "fn": e["via"], "steps": e["steps"], "rate": e["r"], "accel": e["a"], "accum": e["c"], "dps": e["dps"],
                               "first_tick_witness": vlib.from_limbs(e["Tw"]) if e["hasw"] else None},
                           "first tick reaching the budget, recurrence state there", e["raw"],
                           input_class=input_class(e["steps"], e["r"], e["a"], e["c"]))
@@ -169,7 +232,7 @@ def run(ctx):
                     "vlib TLA value parser", "harness limb encoding"]
     ctx.assumptions += ["domain: the recurrence completes the budget with every per-tick |rate| <= 2^31-1; in V the harness proposes the first-tick witness "
                         "and TLC verifies it (cnt(T)=steps, cnt(T-1)<steps, rates in range) before judging - no verified witness means the call is skipped",
-                        "ambient mpmath precision drawn from {1,5,15,30,60}"]
+                        "ambient mpmath precision 15 (mpmath default) or 30 (what any ebb_calc call leaves behind)"]
     return ctx.finish(
         rule="G: TLC steps the machine at modulus 2^31 from the boundary universe; every state in which the motor has just stepped is the expected "
              "(duration, position, accumulator) for the budget cnt - one chain gives the answer for every budget it passes, reversals included; the legacy "
@@ -184,9 +247,12 @@ def replay(rec):
     ec, _em, mp = S.mods()
     c = rec["case"]
     steps, r, a, acc, dps = c["steps"], c["rate"], c["accel"], c.get("accum", S.CLEAR), c.get("dps", 15)
+    if c.get("prelude"):
+        ps, pr, pa, pc = c["prelude"]                  # observed after this call had been made
+        call_lm(ec, mp, 15, ps, pr, pa, pc)
     if c.get("fn") == "moveTimeLM":
         mp.mp.dps = dps
-        t = _em.moveTimeLM(r, steps, a)
+        t = S.call(_em.moveTimeLM, r, steps, a)
         tw = S.lm_witness(steps, r, a, S.CLEAR)
         full = call_lm(ec, mp, dps, steps, r, a, S.CLEAR)
         out = (t, full[1], full[2]) if isinstance(full, tuple) else full
